@@ -289,9 +289,19 @@ def gevent_replay(history):
     pulls = {}
     got = {}
     accepted = []
-    for step in history:
+    killed_early = set()
+    for pos, step in enumerate(history):
         kind = step[0]
         if kind == "add":
+            # a later disconnect of a worker that is blocked now, with no event-loop run in between, is the schedule
+            # "the connection drops (kill scheduled), and in the same loop iteration a job arrives": the kill is queued
+            # before the push and takes effect at the blocking point afterwards
+            for later in history[pos + 1:]:
+                if later[0] in ("run", "drain", "pull", "tick"):
+                    break
+                if later[0] == "disconnect" and later[1] in pulls and later[1] not in killed_early:
+                    pulls[later[1]].kill(block=False)
+                    killed_early.add(later[1])
             accepted.append(H().rpc_qadd(channel=step[1], priority=step[2], timeout=step[3]))
         elif kind == "pull":
             w = step[1]
@@ -313,7 +323,11 @@ def gevent_replay(history):
         elif kind == "disconnect":
             w = step[1]
             if w in pulls:
-                pulls[w].kill()
+                if w in killed_early:
+                    gevent.sleep(0)
+                    gevent.sleep(0)
+                else:
+                    pulls[w].kill()
                 del pulls[w]
             if w in handlers:
                 handlers[w].shutdown()
